@@ -9,8 +9,34 @@ COMMON_T = [
 ]
 
 PROPS = {
+    "C08": {
+        "units": ["http"],
+        "design_ref": "DESIGN.md section 5 C08",
+        "technique": "Verus function contracts: loop invariant over a ghost transmission counter, error-type table as spec function",
+        "text": "Deductive proof (Verus/Z3) over the extracted retry loop, status/error classification and polling macro: "
+                "at most 10 transmissions per request, a further round only after a recoverable problem document, "
+                "Ok only for 2xx, at most 20 polls; for every server answer sequence.",
+        "assumptions": [
+            "T: reqwest's status/header/body accessors behave as modelled in prelude/reqwest.rs; serde_json parsing is an uninterpreted function json_spec",
+            "T: str values are determined by their characters (axiom_str_ext)",
+            "X: redirects (followed inside the HTTP library; out of scope in the property too)",
+        ],
+    },
+    "C18": {
+        "units": ["http"],
+        "design_ref": "DESIGN.md section 5 C18",
+        "technique": "Verus call-site preconditions on the transmission shim (client built from exactly the configured roots, no insecure switch)",
+        "text": "Deductive proof that every request of http.rs is sent through a client whose added roots are exactly the "
+                "contents of the endpoint's root certificate files, in order, with certificate/hostname verification never disabled, "
+                "and that an unreadable or malformed root file aborts before anything is sent.",
+        "assumptions": [
+            "T: reqwest/native-tls validate the chain and host name against system roots plus the added roots (the validation itself is not modelled)",
+            "T: the ClientBuilder/Client/RequestBuilder ghost views in prelude/reqwest.rs (roots, insecure) reflect the library",
+            "X: which files end up in Endpoint.root_certificates (command line + endpoint + global) is config.rs::to_generic",
+        ],
+    },
     "C09": {
-        "units": ["ratelimit"],
+        "units": ["ratelimit", "http"],
         "design_ref": "DESIGN.md section 5 C09",
         "technique": "Verus function contracts + data-structure invariant with ghost admission history",
         "text": "Deductive proof (Verus/Z3) over the extracted limiter code that the admission history stays "
